@@ -64,6 +64,10 @@ VerdictView(ev) ==
 Verdict ==
   CASE Ev.k = "new" -> VerdictNew(Ev)
     [] Ev.k = "op" -> VerdictOp(Ev)
+    \* Angle / tiny non-zero plain number: "ZeroDivisionError ... only for division by zero"
+    [] Ev.k = "tinydiv" -> Viol("TINY_DIVISOR_IS_NOT_ZERO", Ev.oc = "ok" /\ Ev.rty = 1)
+                       \cup Viol("OPERANDS_UNCHANGED", Ev.same = 1)
+                       \cup (IF Ev.oc = "ok" THEN Viol("RANGE", InOpenRange(Ev.r)) ELSE {})
     [] Ev.k = "pos" -> VerdictPos(Ev)
     [] Ev.k = "view" -> VerdictView(Ev)
     [] OTHER -> {"UNKNOWN_KIND"}
